@@ -1,4 +1,4 @@
-import ArrProofs.Lemmas.AxisInv
+import ArrProofs.Lemmas.C06Move
 /-!
 # C06 — axis permutations move each element to the permuted coordinate, nothing else
 
@@ -173,10 +173,342 @@ theorem moveaxis_eq_transpose (a : Arr α) (zero : α) (src dst : List Int)
   unfold Arr.moveaxis
   simp [h1, h2, h3, h4]
 
+/-! ### `moveaxis`: the constructed order (extension)
+
+`moveaxisOrder nd s d` is the list the Rust code builds: the unmoved axes in ascending order, then every
+`(destination, source)` pair, sorted, inserted with `order.insert(d.min(order.len()), s)`.
+`s`, `d` are the normalised source / destination lists. -/
+
+/-- **the order built by `moveaxis` is a permutation of the axes** — for distinct in-range sources and *any*
+destination list of the same length (destinations are only positions; the code clamps them, see
+`moveaxisOrder_single`) -/
+theorem moveaxisOrder_perm (nd : Nat) (s d : List Nat) (hs : s.Nodup) (hl : s.length = d.length)
+    (hb : ∀ x ∈ s, x < nd) : (moveaxisOrder nd s d).Perm (List.range nd) := by
+  rw [moveaxisOrder_eq]
+  refine (insAll_perm _ _).trans ?_
+  have h1 : (((d.zip s).mergeSort pairLe).map (·.2)).Perm s := by
+    have := (List.mergeSort_perm (d.zip s) pairLe).map (·.2)
+    rwa [List.map_snd_zip (by omega)] at this
+  exact (List.Perm.append_right _ h1).trans (source_append_rest_perm nd s hs hb)
+
+/-- **axis `s[k]` ends up at position `d[k]`** (distinct in-range sources and destinations: no insertion is clamped,
+and a later insertion never moves an earlier one) -/
+theorem moveaxisOrder_at (nd : Nat) (s d : List Nat) (hs : s.Nodup) (hd : d.Nodup) (hl : s.length = d.length)
+    (hb : ∀ x ∈ s, x < nd) (hdb : ∀ x ∈ d, x < nd) (k : Nat) (hk : k < s.length) :
+    (moveaxisOrder nd s d)[d[k]'(by omega)]? = some s[k] := by
+  rw [moveaxisOrder_eq]
+  have hsorted := sortedPairs_pairwise s d hd (by omega)
+  have hlenL : ((d.zip s).mergeSort pairLe).length = s.length := by simp [hl]
+  have hrest : ((List.range nd).filter (fun f => !s.contains f)).length + s.length = nd := by
+    have := (source_append_rest_perm nd s hs hb).length_eq
+    simp only [List.length_append, List.length_range] at this; omega
+  have hfst : (((d.zip s).mergeSort pairLe).map (·.1)).Perm d := by
+    have := (List.mergeSort_perm (d.zip s) pairLe).map (·.1)
+    rwa [List.map_fst_zip (by omega)] at this
+  have hmem : (d[k]'(by omega), s[k]) ∈ (d.zip s).mergeSort pairLe := by
+    rw [List.mem_mergeSort, List.mem_iff_getElem]
+    exact ⟨k, by simp; omega, by simp⟩
+  refine insAll_at _ _ hsorted ?_ _ hmem
+  intro j hj
+  have hasc : (((d.zip s).mergeSort pairLe).map (·.1)).Pairwise (· < ·) := by
+    rw [List.pairwise_map]; exact hsorted
+  have := ascending_bound _ hasc nd (fun x hx => hdb x (hfst.mem_iff.1 hx)) j (by simpa using hj)
+  simp only [List.getElem_map, List.length_map] at this
+  omega
+
+/-- **the unmoved axes keep their relative order**: deleting the moved axes from the order leaves `0..nd` without
+them, ascending (every input) -/
+theorem moveaxisOrder_rest_values (nd : Nat) (s d : List Nat) :
+    (moveaxisOrder nd s d).filter (fun f => !s.contains f) = (List.range nd).filter (fun f => !s.contains f) := by
+  rw [moveaxisOrder_eq, insAll_filter]
+  · simp [List.filter_filter]
+  · intro q hq
+    rw [List.mem_mergeSort] at hq
+    have := (List.of_mem_zip (a := q.1) (b := q.2) hq).2
+    simp [this]
+
+/-- **… and sit at the positions that are not destinations**: reading the order at the non-destination positions,
+in ascending order, gives the unmoved axes in ascending order -/
+theorem moveaxisOrder_rest (nd : Nat) (s d : List Nat) (hs : s.Nodup) (hd : d.Nodup) (hl : s.length = d.length)
+    (hb : ∀ x ∈ s, x < nd) (hdb : ∀ x ∈ d, x < nd) :
+    permute ((List.range nd).filter (fun i => !d.contains i)) (moveaxisOrder nd s d) =
+      (List.range nd).filter (fun f => !s.contains f) := by
+  have hperm := moveaxisOrder_perm nd s d hs hl hb
+  have hlen : (moveaxisOrder nd s d).length = nd := by simpa using hperm.length_eq
+  have hnd : (moveaxisOrder nd s d).Nodup := hperm.symm.nodup List.nodup_range
+  rw [← moveaxisOrder_rest_values nd s d]
+  conv => rhs; rw [← map_getD_range (moveaxisOrder nd s d), hlen, List.filter_map]
+  unfold permute
+  congr 1
+  apply List.filter_congr
+  intro i hi
+  have hi' : i < (moveaxisOrder nd s d).length := by simpa [hlen] using hi
+  simp only [Function.comp, List.getD_eq_getElem?_getD, List.getElem?_eq_getElem hi', Option.getD_some]
+  congr 1
+  rw [Bool.eq_iff_iff, List.contains_iff_mem, List.contains_iff_mem]
+  constructor
+  · intro h
+    obtain ⟨k, hk, rfl⟩ := List.getElem_of_mem h
+    have := moveaxisOrder_at nd s d hs hd hl hb hdb k (by omega)
+    rw [List.getElem?_eq_getElem hi', Option.some.injEq] at this
+    rw [this]; exact List.getElem_mem _
+  · intro h
+    obtain ⟨k, hk, hk'⟩ := List.getElem_of_mem h
+    have h1 := moveaxisOrder_at nd s d hs hd hl hb hdb k hk
+    have hdk : d[k]'(by omega) < (moveaxisOrder nd s d).length := by
+      rw [hlen]; exact hdb _ (List.getElem_mem _)
+    rw [List.getElem?_eq_getElem hdk, Option.some.injEq, hk'] at h1
+    have := (hnd.getElem_inj_iff).1 h1
+    rw [← this]; exact List.getElem_mem _
+
+/-- **the order of the opposite move is the inverse permutation**: `moveaxis d s` undoes `moveaxis s d` -/
+theorem moveaxisOrder_inverse (nd : Nat) (s d : List Nat) (hs : s.Nodup) (hd : d.Nodup) (hl : s.length = d.length)
+    (hb : ∀ x ∈ s, x < nd) (hdb : ∀ x ∈ d, x < nd) :
+    moveaxisOrder nd d s = invAxes (moveaxisOrder nd s d) := by
+  have hp1 := moveaxisOrder_perm nd s d hs hl hb
+  have hp2 := moveaxisOrder_perm nd d s hd hl.symm hdb
+  have hl1 : (moveaxisOrder nd s d).length = nd := by simpa using hp1.length_eq
+  have hl2 : (moveaxisOrder nd d s).length = nd := by simpa using hp2.length_eq
+  have hn1 : (moveaxisOrder nd s d).Nodup := hp1.symm.nodup List.nodup_range
+  -- position `i` of the opposite order holds the position at which the order holds `i`
+  have key : ∀ i, i < nd → ∃ j, (moveaxisOrder nd d s)[i]? = some j ∧ (moveaxisOrder nd s d)[j]? = some i := by
+    intro i hi
+    by_cases his : i ∈ s
+    · obtain ⟨k, hk, rfl⟩ := List.getElem_of_mem his
+      exact ⟨d[k]'(by omega), moveaxisOrder_at nd d s hd hs hl.symm hdb hb k (by omega),
+        moveaxisOrder_at nd s d hs hd hl hb hdb k hk⟩
+    · have hmem : i ∈ (List.range nd).filter (fun f => !s.contains f) := by
+        simp [List.mem_filter, hi, his]
+      obtain ⟨t, ht, hti⟩ := List.getElem_of_mem hmem
+      have r2 := moveaxisOrder_rest nd d s hd hs hl.symm hdb hb
+      have r1 := moveaxisOrder_rest nd s d hs hd hl hb hdb
+      have ht' : t < ((List.range nd).filter (fun f => !d.contains f)).length := by
+        have := congrArg List.length r2; simp only [permute, List.length_map] at this; omega
+      have hdt : ((List.range nd).filter (fun f => !d.contains f))[t] < nd := by
+        have := List.getElem_mem ht'; simp only [List.mem_filter, List.mem_range] at this; exact this.1
+      have e2 := congrArg (fun l => l[t]?) r2
+      have e1 := congrArg (fun l => l[t]?) r1
+      simp only [permute, List.getElem?_map, List.getElem?_eq_getElem ht, List.getElem?_eq_getElem ht',
+        Option.map_some, hti, Option.some.injEq, List.getD_eq_getElem?_getD] at e1 e2
+      refine ⟨((List.range nd).filter (fun f => !d.contains f))[t], ?_, ?_⟩
+      · rw [List.getElem?_eq_getElem (by omega)] at e2 ⊢
+        simpa using e2
+      · rw [List.getElem?_eq_getElem (by omega)] at e1 ⊢
+        simpa using e1
+  apply List.ext_getElem
+  · simp [invAxes, hl1, hl2]
+  · intro i h1 h2
+    obtain ⟨j, hj1, hj2⟩ := key i (by omega)
+    have hj : j < (moveaxisOrder nd s d).length := by
+      by_contra h; rw [List.getElem?_eq_none (by omega)] at hj2; cases hj2
+    rw [List.getElem?_eq_getElem h1, Option.some.injEq] at hj1
+    rw [List.getElem?_eq_getElem hj, Option.some.injEq] at hj2
+    simp only [invAxes, List.getElem_map, List.getElem_range]
+    rw [hj1, ← hj2]
+    exact (List.Nodup.idxOf_getElem hn1 j hj).symm
+
+/-! ### coordinate statements for `moveaxis`, `rollaxis`, `swapaxes` -/
+
+/-- `transpose_spec` for an axis order given as naturals -/
+theorem transpose_nat_spec (a : Arr α) (zero : α) (o : List Nat) (hwf : a.WF) (hperm : o.Perm (List.range a.ndim)) :
+    ∃ r, a.transpose zero (some (o.map Int.ofNat)) = .ok r ∧ r.shape = permute o a.shape ∧ r.WF ∧
+      ∀ c, inRange a.shape c = true → r.get? (permute o c) = a.get? c := by
+  have := transpose_spec a zero (some (o.map Int.ofNat)) hwf (by simp only [axesOf, map_normalizeAxis_ofNat]; exact hperm)
+  simpa only [axesOf, map_normalizeAxis_ofNat] using this
+
+/-- **moveaxis, coordinate form**: for distinct sources (as written and after normalisation, either spelling of an
+axis), distinct destinations, equally many of both and in-range sources, `moveaxis` succeeds, the result has the
+shape permuted by the constructed order `o`, and the input element at coordinate `c` is the result element at
+coordinate `permute o c`.  `moveaxis_coord` says what `permute o c` looks like. -/
+theorem moveaxis_spec (a : Arr α) (zero : α) (src dst : List Int) (hwf : a.WF)
+    (h1 : src.Nodup) (h2 : src.length = dst.length)
+    (h3 : (src.map (normalizeAxis a.ndim)).Nodup) (h4 : (dst.map (normalizeAxis a.ndim)).Nodup)
+    (h5 : ∀ x ∈ src.map (normalizeAxis a.ndim), x < a.ndim)
+    (o : List Nat) (ho : o = moveaxisOrder a.ndim (src.map (normalizeAxis a.ndim)) (dst.map (normalizeAxis a.ndim))) :
+    ∃ r, a.moveaxis zero src dst = .ok r ∧ r.shape = permute o a.shape ∧ r.WF ∧
+      ∀ c, inRange a.shape c = true → r.get? (permute o c) = a.get? c := by
+  subst ho
+  rw [moveaxis_eq_transpose a zero src dst h1 h2 h3 h4]
+  exact transpose_nat_spec a zero _ hwf (moveaxisOrder_perm a.ndim _ _ h3 (by simpa using h2) h5)
+
+/-- **what the moved coordinate vector looks like**: with in-range destinations, position `d[k]` of the permuted
+vector (coordinate or shape) holds entry `s[k]` of the original, and the remaining positions, read in ascending
+order, hold the remaining entries in their original order -/
+theorem moveaxis_coord (nd : Nat) (s d : List Nat) (hs : s.Nodup) (hd : d.Nodup) (hl : s.length = d.length)
+    (hb : ∀ x ∈ s, x < nd) (hdb : ∀ x ∈ d, x < nd) (c : List Nat) :
+    (∀ k (hk : k < s.length), (permute (moveaxisOrder nd s d) c)[d[k]'(by omega)]? = some (c.getD s[k] 0)) ∧
+    permute ((List.range nd).filter (fun i => !d.contains i)) (permute (moveaxisOrder nd s d) c) =
+      permute ((List.range nd).filter (fun i => !s.contains i)) c := by
+  constructor
+  · intro k hk
+    simp only [permute, List.getElem?_map, moveaxisOrder_at nd s d hs hd hl hb hdb k hk, Option.map_some]
+  · have hlen : (moveaxisOrder nd s d).length = nd := by
+      simpa using (moveaxisOrder_perm nd s d hs hl hb).length_eq
+    rw [permute_permute _ _ _ (fun x hx => by
+      simp only [List.mem_filter, List.mem_range] at hx; omega), moveaxisOrder_rest nd s d hs hd hl hb hdb]
+
+/-- **moving a single axis** from `i` to `j` (either spelling): the coordinate `c[i]` is taken out and re-inserted
+at position `j`, the others keep their order; a destination at or past the last axis is clamped by the code's
+`d.min(order.len())` and means "last" -/
+theorem moveaxis_single (a : Arr α) (zero : α) (i j : Int) (hwf : a.WF) (i' p : Nat)
+    (hi' : i' = normalizeAxis a.ndim i) (hi : i' < a.ndim) (hp : p = min (normalizeAxis a.ndim j) (a.ndim - 1)) :
+    ∃ r, a.moveaxis zero [i] [j] = .ok r ∧ r.shape = (a.shape.eraseIdx i').insertIdx p (a.shape.getD i' 0) ∧ r.WF ∧
+      ∀ c, inRange a.shape c = true → r.get? ((c.eraseIdx i').insertIdx p (c.getD i' 0)) = a.get? c := by
+  subst hi' hp
+  obtain ⟨r, g1, g2, g3, g4⟩ := moveaxis_spec a zero [i] [j] hwf (by simp) rfl (by simp) (by simp)
+    (by simpa using hi) _ rfl
+  simp only [List.map_cons, List.map_nil, moveaxisOrder_single _ _ _ hi] at g2 g4
+  refine ⟨r, g1, ?_, g3, ?_⟩
+  · rw [g2]; exact permute_rollaxisOrder a.ndim _ _ a.shape rfl
+  · intro c hc
+    rw [← g4 c hc]; congr 1
+    exact (permute_rollaxisOrder a.ndim _ _ c (inRange_length _ _ hc)).symm
+
+/-- **rollaxis, coordinate form**: coordinate `axis` is taken out and re-inserted at position `start` -/
+theorem rollaxis_spec (a : Arr α) (zero : α) (axis : Int) (start : Option Int) (hwf : a.WF) (ax st : Nat)
+    (hax : ax = normalizeAxis a.ndim axis) (hst : st = startOf a.ndim start) (h1 : ax < a.ndim) (h2 : st < a.ndim) :
+    ∃ r, a.rollaxis zero axis start = .ok r ∧ r.shape = (a.shape.eraseIdx ax).insertIdx st (a.shape.getD ax 0) ∧ r.WF ∧
+      ∀ c, inRange a.shape c = true → r.get? ((c.eraseIdx ax).insertIdx st (c.getD ax 0)) = a.get? c := by
+  subst hax hst
+  rw [rollaxis_eq_transpose a zero axis start h1 h2]
+  obtain ⟨r, g1, g2, g3, g4⟩ := transpose_nat_spec a zero _ hwf (rollaxisOrder_perm a.ndim _ _ h1 h2)
+  refine ⟨r, g1, ?_, g3, ?_⟩
+  · rw [g2]; exact permute_rollaxisOrder a.ndim _ _ a.shape rfl
+  · intro c hc
+    rw [← g4 c hc]; congr 1
+    exact (permute_rollaxisOrder a.ndim _ _ c (inRange_length _ _ hc)).symm
+
+/-- **swapaxes, coordinate form**: coordinates `i` and `j` are exchanged, nothing else moves -/
+theorem swapaxes_spec (a : Arr α) (zero : α) (ax1 ax2 : Int) (hwf : a.WF) (i j : Nat)
+    (hi : i = normalizeAxis a.ndim ax1) (hj : j = normalizeAxis a.ndim ax2) (h1 : i < a.ndim) (h2 : j < a.ndim) :
+    ∃ r, a.swapaxes zero ax1 ax2 = .ok r ∧
+      r.shape = (a.shape.set i (a.shape.getD j 0)).set j (a.shape.getD i 0) ∧ r.WF ∧
+      ∀ c, inRange a.shape c = true → r.get? ((c.set i (c.getD j 0)).set j (c.getD i 0)) = a.get? c := by
+  subst hi hj
+  rw [swapaxes_eq_transpose a zero ax1 ax2 h1 h2]
+  obtain ⟨r, g1, g2, g3, g4⟩ := transpose_nat_spec a zero _ hwf (swapOrder_perm a.ndim _ _ h1 h2)
+  refine ⟨r, g1, ?_, g3, ?_⟩
+  · rw [g2]; exact permute_swapOrder a.ndim _ _ a.shape rfl h1 h2
+  · intro c hc
+    rw [← g4 c hc]; congr 1
+    exact (permute_swapOrder a.ndim _ _ c (inRange_length _ _ hc) h1 h2).symm
+
+/-- **moving `s → d` and then `d → s` restores the array** -/
+theorem moveaxis_inverse (a : Arr α) (zero : α) (src dst : List Int) (hwf : a.WF)
+    (h1 : src.Nodup) (h2 : src.length = dst.length)
+    (h3 : (src.map (normalizeAxis a.ndim)).Nodup) (h4 : (dst.map (normalizeAxis a.ndim)).Nodup)
+    (h5 : ∀ x ∈ src.map (normalizeAxis a.ndim), x < a.ndim) (h6 : ∀ x ∈ dst.map (normalizeAxis a.ndim), x < a.ndim) :
+    (a.moveaxis zero src dst >>= fun r => r.moveaxis zero dst src) = .ok a := by
+  have hl : (src.map (normalizeAxis a.ndim)).length = (dst.map (normalizeAxis a.ndim)).length := by simpa using h2
+  have hp := moveaxisOrder_perm a.ndim _ _ h3 hl h5
+  obtain ⟨r, g1, g2, _, _⟩ := moveaxis_spec a zero src dst hwf h1 h2 h3 h4 h5 _ rfl
+  have hrnd : r.ndim = a.ndim := by
+    simp only [Arr.ndim, g2, permute, List.length_map]; simpa [Arr.ndim] using hp.length_eq
+  have hinv := transpose_inv a zero _ hwf hp
+  rw [← moveaxis_eq_transpose a zero src dst h1 h2 h3 h4, g1] at hinv
+  rw [g1]
+  simp only [Res.bind_ok] at hinv ⊢
+  rw [moveaxis_eq_transpose r zero dst src (List.Nodup.of_map _ h4) h2.symm (by rw [hrnd]; exact h4) (by rw [hrnd]; exact h3),
+    hrnd, moveaxisOrder_inverse a.ndim _ _ h3 h4 hl h5 h6]
+  exact hinv
+
+/-! ### `moveaxis` refusals -/
+
+/-- **a repeated source axis (as written or after normalisation), a repeated destination axis or lists of different
+lengths are refused with an error** -/
+theorem moveaxis_rejects (a : Arr α) (zero : α) (src dst : List Int)
+    (h : ¬ (src.Nodup ∧ src.length = dst.length ∧
+      (src.map (normalizeAxis a.ndim)).Nodup ∧ (dst.map (normalizeAxis a.ndim)).Nodup)) :
+    ∃ e, a.moveaxis zero src dst = .err e := by
+  unfold Arr.moveaxis
+  by_cases h1 : src.Nodup
+  · by_cases h2 : src.length = dst.length
+    · by_cases h3 : (src.map (normalizeAxis a.ndim)).Nodup
+      · have h4 : ¬ (dst.map (normalizeAxis a.ndim)).Nodup := fun h4 => h ⟨h1, h2, h3, h4⟩
+        exact ⟨.MustBeUnique, by simp [h1, h2, h3, h4]⟩
+      · exact ⟨.MustBeUnique, by simp [h1, h2, h3]⟩
+    · exact ⟨.MustBeEqual, by simp [h1, h2]⟩
+  · exact ⟨.MustBeUnique, by simp [h1]⟩
+
+/-- **an out-of-range source axis is refused with an error** (the constructed order then contains it, so `transpose`
+refuses the order).  Out-of-range *destinations* are not refused: the code clamps them to the end
+(`moveaxis_spec` has no hypothesis on the destinations' range, `moveaxis_single` shows the clamp). -/
+theorem moveaxis_rejects_source_range (a : Arr α) (zero : α) (src dst : List Int)
+    (h : ∃ x ∈ src.map (normalizeAxis a.ndim), a.ndim ≤ x) :
+    ∃ e, a.moveaxis zero src dst = .err e := by
+  by_cases hacc : src.Nodup ∧ src.length = dst.length ∧
+      (src.map (normalizeAxis a.ndim)).Nodup ∧ (dst.map (normalizeAxis a.ndim)).Nodup
+  · obtain ⟨h1, h2, h3, h4⟩ := hacc
+    rw [moveaxis_eq_transpose a zero src dst h1 h2 h3 h4]
+    apply transpose_rejects
+    simp only [axesOf, map_normalizeAxis_ofNat]
+    intro hperm
+    obtain ⟨x, hx, hge⟩ := h
+    have hxo : x ∈ moveaxisOrder a.ndim (src.map (normalizeAxis a.ndim)) (dst.map (normalizeAxis a.ndim)) := by
+      rw [moveaxisOrder_eq, (insAll_perm _ _).mem_iff, List.mem_append]
+      left
+      have := (List.mergeSort_perm ((dst.map (normalizeAxis a.ndim)).zip (src.map (normalizeAxis a.ndim))) pairLe).map (·.2)
+      rw [List.map_snd_zip (by simp [h2])] at this
+      exact this.mem_iff.2 hx
+    have := hperm.mem_iff.1 hxo
+    simp only [List.mem_range] at this
+    omega
+  · exact moveaxis_rejects a zero src dst hacc
+
+/-- **no input makes the axis operations panic** -/
+theorem transpose_never_panics (a : Arr α) (zero : α) (axes : Option (List Int)) : a.transpose zero axes ≠ .panic := by
+  unfold Arr.transpose
+  cases hv : validAxes a.ndim (axesOf a.ndim axes) with
+  | ok u => simp only [hv, Res.bind_ok, Arr.new]; split <;> simp
+  | err e => simp [hv]
+  | panic => exact absurd hv (validAxes_not_panic _ _)
+
+theorem moveaxis_never_panics (a : Arr α) (zero : α) (src dst : List Int) : a.moveaxis zero src dst ≠ .panic := by
+  unfold Arr.moveaxis
+  by_cases h1 : src.Nodup
+  · by_cases h2 : src.length = dst.length
+    · by_cases h3 : (src.map (normalizeAxis a.ndim)).Nodup
+      · by_cases h4 : (dst.map (normalizeAxis a.ndim)).Nodup
+        · simp only [h1, h2, h3, h4, not_true_eq_false, ne_eq, if_false]
+          exact transpose_never_panics a zero _
+        · simp [h1, h2, h3, h4]
+      · simp [h1, h2, h3]
+    · simp [h1, h2]
+  · simp [h1]
+
 /-! ### non-vacuity -/
 example : (axesOf 3 (some [2, 0, -2])).Perm (List.range 3) := by decide
 example : (⟨List.range 24, [2, 3, 4]⟩ : Arr Nat).WF := by decide
 example : (⟨List.range 6, [2, 3]⟩ : Arr Nat).transpose 0 none = .ok ⟨[0, 3, 1, 4, 2, 5], [3, 2]⟩ := by decide
 example : rollaxisOrder 4 2 0 = [2, 0, 1, 3] := by decide
+
+/-! ### non-vacuity (moveaxis extension) -/
+-- unsorted destinations: axis 0 lands at position 3, axis 1 at position 1, the rest `[2, 3]` stays ascending
+example : moveaxisOrder 4 [0, 1] [3, 1] = [2, 1, 3, 0] := by
+  simp [moveaxisOrder, List.mergeSort, pairLe]; decide
+-- a destination past the end is clamped to "last"
+example : moveaxisOrder 3 [0] [7] = [1, 2, 0] := by
+  simp [moveaxisOrder]; decide
+-- both spellings normalise to the lists the theorems talk about
+example : ([0, -3] : List Int).map (normalizeAxis 4) = [0, 1] ∧ ([-1, 1] : List Int).map (normalizeAxis 4) = [3, 1] := by decide
+-- the hypotheses of `moveaxis_spec` / `moveaxis_inverse` are satisfiable
+example : ∃ r, (⟨List.range 24, [2, 3, 4]⟩ : Arr Nat).moveaxis 0 [0, -1] [-1, 0] = .ok r ∧ r.WF :=
+  let ⟨r, h, _, hw, _⟩ := moveaxis_spec (⟨List.range 24, [2, 3, 4]⟩ : Arr Nat) 0 [0, -1] [-1, 0]
+    (by decide) (by decide) (by decide) (by decide) (by decide) (by decide) _ rfl
+  ⟨r, h, hw⟩
+example : ((⟨List.range 24, [2, 3, 4]⟩ : Arr Nat).moveaxis 0 [0, -1] [1, 0] >>= fun r => r.moveaxis 0 [1, 0] [0, -1]) =
+    .ok ⟨List.range 24, [2, 3, 4]⟩ :=
+  moveaxis_inverse _ 0 [0, -1] [1, 0] (by decide) (by decide) (by decide) (by decide) (by decide) (by decide) (by decide)
+example : (⟨List.range 6, [2, 3]⟩ : Arr Nat).moveaxis 0 [0] [-1] = .ok ⟨[0, 3, 1, 4, 2, 5], [3, 2]⟩ := by
+  rw [moveaxis_eq_transpose _ _ _ _ (by decide) (by decide) (by decide) (by decide)]
+  have : moveaxisOrder 2 [0] [1] = [1, 0] := by simp [moveaxisOrder]; decide
+  simp only [show (⟨List.range 6, [2, 3]⟩ : Arr Nat).ndim = 2 from rfl, List.map,
+    show normalizeAxis 2 0 = 0 from by decide, show normalizeAxis 2 (-1) = 1 from by decide, this]
+  decide
+-- refusals
+example : (⟨List.range 6, [2, 3]⟩ : Arr Nat).moveaxis 0 [0, -2] [1, 0] = .err .MustBeUnique := by decide
+example : (⟨List.range 6, [2, 3]⟩ : Arr Nat).moveaxis 0 [0, 1] [1] = .err .MustBeEqual := by decide
+example : ∃ e, (⟨List.range 6, [2, 3]⟩ : Arr Nat).moveaxis 0 [5] [0] = .err e :=
+  moveaxis_rejects_source_range _ _ _ _ ⟨5, by decide, by decide⟩
 
 end ArrModel.C06
